@@ -183,7 +183,13 @@ class HassebGW:
         if self.expects_answer(v):
             out = self.bus(16, v, idx)
             self.answers[idx] = out
+            if getattr(self.w, "idle_reports", False):
+                # the hasseb reports "no data available" (status 0) while it has nothing to say; the byte after the status
+                # is a don't-care (here: zero, then whatever the last data byte was)
+                self.pending.append(bytes([0, 0]))
+                self.pending.append(bytes([0, getattr(self, "last_data", 0x80)]))
             if out[0] == "value":
+                self.last_data = out[1] or 0x80
                 self.pending.append(bytes([2, out[1]]))
             elif out[0] == "err":
                 self.pending.append(bytes([3, out[1] if len(out) > 1 else 0x55]))
